@@ -227,15 +227,49 @@ Section Batcher.
     end.
 End Batcher.
 
-(* A scripted executor (used by the driver and by the examples): the n-th request is answered according
-   to the n-th behaviour; answers echo the request number and the call id. *)
+(* ---- doRequestWithRetries: the executor of the batcher, attempt by attempt ----
+   One attempt of a read request (readBatch.doRequest): execute() opens a stream, the chunks received are appended
+   to a response that is created afresh for this attempt, and the stream ends with io.EOF (AOk), with a retriable
+   status (Unavailable, InvalidStatus, AlreadyClosed, NodeIsNotLeader) or with any other error (AFatal); execute()
+   failing is an attempt without chunks.  A write attempt (writeBatch: b.execute) is one chunk or an error.
+   backoff.RetryNotify repeats the attempt while its error is retriable; the request timeout ends the loop with
+   an error.  The attempts are independent: what the batch sees is the outcome of the LAST attempt only. *)
+Inductive ending := AOk | ARetriable (e : N) | AFatal (e : N).
+Record attempt := mkAttempt { at_chunks : list response; at_end : ending }.
+
+Definition resp_append (r c : response) : response :=
+  mkResp (r_puts r ++ r_puts c) (r_dels r ++ r_dels c) (r_ranges r ++ r_ranges c) (r_gets r ++ r_gets c).
+
+(* response := &proto.ReadResponse{};  for each chunk: response.Gets = append(response.Gets, recv.Gets...) *)
+Definition do_request (a : attempt) : response :=
+  fold_left resp_append (at_chunks a) (mkResp [] [] [] []).
+
+(* the first attempt and the ones that follow as long as the loop goes on *)
+Fixpoint with_retries (a : attempt) (rest : list attempt) : exec_result :=
+  match at_end a with
+  | AOk => EOk (do_request a)
+  | AFatal e => EErr e
+  | ARetriable e =>
+      match rest with
+      | [] => EErr e                      (* the request timeout has expired: no further attempt *)
+      | a' :: rest' => with_retries a' rest'
+      end
+  end.
+
+(* the environment: for the n-th request, what each attempt at it is answered *)
+Definition retry_exec (script : N -> request -> attempt * list attempt) (n : N) (q : request) : exec_result :=
+  let (a, rest) := script n q in with_retries a rest.
+
+(* A scripted executor (used by the driver and by the examples): the n-th request is answered according to the
+   n-th entry: a list of attempts that deliver the first k answers and then fail with a retriable error, and a
+   final behaviour; answers echo the request number, the attempt number and the call id. *)
 Inductive behaviour :=
   | BhOk
   | BhErr (e : N)
   | BhShort (k : ckind) (d : nat)      (* the answer list of kind k lacks its last d entries *)
   | BhLong (k : ckind) (d : nat).      (* ... has d extra entries *)
 
-Definition echo (n : N) (c : call) : N := (n * 1000000 + c_id c)%N.
+Definition echo (n : N) (a : nat) (c : call) : N := (n * 1000000 + N.of_nat a * 100000 + c_id c)%N.
 
 Definition tweak (bh : behaviour) (k : ckind) (l : list N) : list N :=
   match bh with
@@ -246,15 +280,34 @@ Definition tweak (bh : behaviour) (k : ckind) (l : list N) : list N :=
   | _ => l
   end.
 
-Definition scripted_exec (script : list behaviour) (n : N) (q : request) : exec_result :=
-  let bh := nth (N.to_nat n) script BhOk in
+Definition final_attempt (bh : behaviour) (n : N) (a : nat) (q : request) : attempt :=
   match bh with
-  | BhErr e => EErr e
-  | _ => EOk (mkResp (tweak bh KPut (map (echo n) (q_puts q)))
-                     (tweak bh KDelete (map (echo n) (q_dels q)))
-                     (tweak bh KDeleteRange (map (echo n) (q_ranges q)))
-                     (tweak bh KGet (map (echo n) (q_gets q))))
+  | BhErr e => mkAttempt [] (AFatal e)
+  | _ => mkAttempt [mkResp (tweak bh KPut (map (echo n a) (q_puts q)))
+                           (tweak bh KDelete (map (echo n a) (q_dels q)))
+                           (tweak bh KDeleteRange (map (echo n a) (q_ranges q)))
+                           (tweak bh KGet (map (echo n a) (q_gets q)))] AOk
   end.
+
+(* the stream delivers the answers of the first k gets, then fails with a retriable status *)
+Definition partial_attempt (n : N) (a : nat) (k : nat) (q : request) : attempt :=
+  mkAttempt [mkResp [] [] [] (firstn k (map (echo n a) (q_gets q)))] (ARetriable 0).
+
+Fixpoint partial_attempts (n : N) (a : nat) (ks : list nat) (q : request) : list attempt :=
+  match ks with
+  | [] => []
+  | k :: ks' => partial_attempt n a k q :: partial_attempts n (S a) ks' q
+  end.
+
+Definition scripted_attempts (script : list (list nat * behaviour)) (n : N) (q : request) : attempt * list attempt :=
+  let (ks, bh) := nth (N.to_nat n) script ([], BhOk) in
+  match partial_attempts n 0 ks q with
+  | [] => (final_attempt bh n 0 q, [])
+  | p :: ps => (p, ps ++ [final_attempt bh n (length ks) q])
+  end.
+
+Definition scripted_exec (script : list (list nat * behaviour)) : N -> request -> exec_result :=
+  retry_exec (scripted_attempts script).
 
 (* ------------------------------------------------------------------ *)
 (** * 2. The write stream wrapper                                       *)
